@@ -33,9 +33,32 @@ logging.disable(logging.CRITICAL)
 T0 = 0x03D0000000000000          # tids of the storage under test start here
 BASE_T0 = 0x03A0000000000000     # tids of a demo storage's base
 NEXT_OID = 900                   # oid written by the "next transaction" probe
-FOREIGN = 99                     # model id of the foreign transaction
+FOREIGN = 999999                 # model id of the foreign transaction
 TIMEOUT = 8.0
 KINDS = ['file', 'fileblob', 'mapping', 'blobmapping', 'demofile', 'demomapping']
+
+
+# A realistic partial write: the raw write returns a SHORT COUNT (the first bytes reached the disk) and
+# the NEXT raw operation fails — what a full disk does.  (vfs.Recorder.fail_partial writes bytes AND
+# raises from the same call, which no OS does and which desynchronises Python's buffered position.)
+_orig_raw_write = vfs.RecFileIO.write
+
+
+def _short_write(self, b):
+    rec = self._rec
+    sa = getattr(rec, 'short_at', None)
+    if sa is not None and rec.enabled and rec.nmut + 1 == sa[0]:
+        b = bytes(b)
+        rec.short_at = None
+        if len(b) > 1:
+            n = _orig_raw_write(self, b[:max(1, min(sa[1], len(b) - 1))])
+            rec.fail_at = rec.nmut + 1
+            return n
+        rec.fail_at = rec.nmut + 1
+    return _orig_raw_write(self, b)
+
+
+vfs.RecFileIO.write = _short_write
 
 
 def p64(n):
@@ -48,6 +71,25 @@ def u64(b):
 
 def payload(dlen, tag):
     return bytes([tag]) * dlen
+
+
+_safe = []
+
+
+def safe_tags():
+    """payload bytes that ConflictError's constructor (get_pickle_metadata) digests without raising —
+    `b'c…'` (a truncated GLOBAL opcode) makes it raise ValueError, which is about garbage pickles,
+    not about this property"""
+    if not _safe:
+        from ZODB.utils import get_pickle_metadata
+        for tag in range(1, 200):
+            try:
+                for n in (1, 2, 5, 100):
+                    get_pickle_metadata(bytes([tag]) * n)
+                _safe.append(tag)
+            except Exception:
+                pass
+    return _safe
 
 
 def tag_of(data):
@@ -175,7 +217,7 @@ class Env:
             for r in t:
                 recs.append((u64(r.oid), u64(r.tid), None if r.data is None else (len(r.data), tag_of(r.data))))
             its.append((u64(t.tid), t.status if isinstance(t.status, str) else t.status.decode(),
-                        len(t.user), len(t.description), sorted(recs)))
+                        len(t.user), len(t.description), sorted(recs, key=repr)))
         q['iterator'] = its
         q['last'] = u64(st.lastTransaction())
         q['len'] = len(st)
@@ -342,12 +384,13 @@ class Runner:
         self.nontrivial = False
         self.stop_at_first = stop_at_first
         self.env = None
+        self.scen = []           # (canonical scenario, non-trivial?) for the evidence counters
 
     def count(self, k, n=1):
         self.stats[k] = self.stats.get(k, 0) + n
 
     def emit(self, line, expected=None, label=''):
-        self.lines.append((line, expected, label))
+        self.lines.append((line, expected, '%s#%d' % (label, len(self.executed) - 1)))
 
     # one API call on the real storage; returns (out, data-class, fault fired)
     def call(self, env, name, fn, model_line, fault_k=None, label=''):
@@ -473,11 +516,12 @@ class Runner:
         """the next transaction begins (lock not leaked), commits and is readable"""
         res = {}
         mark = len(self.lines)
+        q0 = self.stats.get('err:Quota', 0)
 
         def work():
             try:
                 ser = 'cur'
-                res['ok'] = self.commit(env, dict(ops=[['store', NEXT_OID, ser, 7, 1 + len(env.alltids) % 250]]),
+                res['ok'] = self.commit(env, dict(ops=[['store', NEXT_OID, ser, 7, safe_tags()[len(env.alltids) % 150]]]),
                                         label='next')
             except BaseException as e:          # noqa: B902
                 res['exc'] = repr(e)
@@ -492,6 +536,11 @@ class Runner:
                 sig = 'C05:demo-begin-failure-leaks-locks'
             self.violation(sig, 'after the mandated tpc_abort the next tpc_begin did not return within %.0fs '
                                 '(commit lock leaked)' % TIMEOUT)
+            return False
+        if not res.get('ok') and self.stats.get('err:Quota', 0) > q0:
+            # the probe itself ran into the configured quota: a legitimate refusal, the history ends here
+            self.count('next-txn-hit-quota')
+            env.dead = True
             return False
         if not res.get('ok'):
             self.violation('C05:next-txn-failed:%s:%s' % (env.kind, scen_label),
@@ -543,6 +592,9 @@ class Runner:
             label = 'meta%d' % failure['which']
         self.executed.append(dict(type='scenario', victim=victim, failure=failure))
         self.count('scenario:' + label)
+        srec = [dict(kind=env.kind, quota=env.quota, ncommitted=len(env.alltids), victim=victim,
+                     failure=failure), False]
+        self.scen.append(srec)
         rec = env.rec
         before = env.observe()
         self.obs_point(env, 'before:' + label)
@@ -569,7 +621,11 @@ class Runner:
             ops = [['store', 700, 'cur', room, 33]] + ops + [['store', 701, 'cur', 3, 34]]
         rec.nmut = 0
         rec.fail_at = failure.get('k') if fk in ('raw', 'finishfault') else None
-        rec.fail_partial = failure.get('partial', 0) if fk == 'raw' else 0
+        rec.fail_partial = 0
+        rec.short_at = None
+        if fk == 'raw' and failure.get('partial'):
+            rec.fail_at = None
+            rec.short_at = (failure['k'], failure['partial'])
         percall = []
         what = label
         nd_vote = failure.get('nd_vote', 1)
@@ -680,10 +736,12 @@ class Runner:
                     state['voted'] = True
                 if state['voted'] and fphase == 2:
                     foreign_calls('after vote')
-        if fk in ('abort', 'count', 'conflict', 'quota', 'meta') or (fk == 'raw' and state['failed']) \
-                or (fk == 'foreign' and not failure.get('commit')):
-            self.nontrivial = self.nontrivial or fk in ('abort', 'count', 'conflict', 'quota', 'meta')
-        rec.fail_partial = 0
+        # non-trivial (DESIGN 4.21): the fault hit after >= 1 raw write of the vote, or a failure / abort
+        # happened at a begin / store / vote boundary
+        if fk in ('abort', 'count', 'foreign', 'finishfault') or state['failed']:
+            srec[1] = True
+            self.nontrivial = True
+        rec.short_at = None
         # ---- finish-fault: the failure hits the status flip
         if fk == 'finishfault':
             if not state['voted']:
@@ -858,14 +916,14 @@ def gen_txn(rng, kind, oids, big=False):
             dlen = rng.choice([8150, 8192, 9000, 20000, 70000])
         else:
             dlen = rng.choice([1, 2, 30, 100, 500, 4000])
-        tag = rng.randrange(1, 200)
+        tag = rng.choice(safe_tags())
         if kind in ('fileblob', 'blobmapping') and rng.random() < 0.35:
             ops.append(['storeblob', oid, 'cur', dlen, tag])
         elif kind in ('file', 'fileblob') and rng.random() < 0.12:
             ops.append(['delete', oid, 'cur'])
         else:
             ops.append(['store', oid, 'cur', dlen, tag])
-    return dict(u=rng.choice([0, 0, 3, 40]), d=rng.choice([0, 5, 5, 300, 65535]) if rng.random() < 0.9 else 0,
+    return dict(u=rng.choice([0, 0, 3, 40]), d=rng.choice([0, 5, 5, 300, 300, 2000, 65535]) if rng.random() < 0.9 else 0,
                 e=rng.choice([0, 0, 0, 20]), ops=ops)
 
 
@@ -891,7 +949,7 @@ def gen_case(rng, kind, thorough):
             steps.append(dict(type='commit', txn=txn))
     quota = None
     if kind in ('file', 'fileblob', 'demofile') and rng.random() < 0.5:
-        quota = 2000000 if rng.random() < 0.3 else rng.choice([150000, 400000])
+        quota = rng.choice([600000, 1000000, 2000000])
     if kind in ('file', 'fileblob') and rng.random() < 0.5:
         v = gen_txn(rng, kind, oids)
         v['d'] = min(v['d'], 300)
@@ -1037,15 +1095,31 @@ def load_corpus():
     return cases
 
 
-def run_case(ck, case, idx, rng=None, thorough=False, stop_at_first=True):
-    root = os.path.join(ck.tmp, 'case%d' % idx)
+def run_case(ck, case, idx, rng=None, thorough=False, stop_at_first=True, tmp=None):
+    root = os.path.join(tmp or ck.tmp, 'case%d' % idx)
     if os.path.exists(root):
         shutil.rmtree(root)
     os.makedirs(root)
-    r = Runner(ck, case, root, stop_at_first=stop_at_first)
+    r = Runner(None, case, root, stop_at_first=stop_at_first)
     r.run(rng, thorough)
     shutil.rmtree(root, ignore_errors=True)
     return r
+
+
+def _work(args):
+    """one case in a worker process; returns plain data only"""
+    import random
+    tmp, seed, idx, case, thorough = args
+    sub = random.Random('%s-%d-%d' % (seed, idx, len(case['steps'])))
+    try:
+        r = run_case(None, case, idx, sub, thorough, tmp=tmp)
+    except InfraError as e:
+        return dict(idx=idx, infra=str(e))
+    except Exception as e:          # a harness bug must surface as an infrastructure error
+        import traceback
+        return dict(idx=idx, infra='%r\n%s' % (e, traceback.format_exc()[-1500:]))
+    return dict(idx=idx, stats=r.stats, scen=r.scen, violations=r.violations, executed=r.executed,
+                lines=r.lines, nontrivial=r.nontrivial)
 
 
 _ctr = [0]
@@ -1084,18 +1158,31 @@ def main(argv=None):
             cases.append(gen_case(ck.rng, kind, ck.thorough))
     all_lines = []
     spans = []
-    for idx, case in enumerate(cases):
-        sub = random.Random('%s-%d-%d' % (ck.seed, idx, len(case['steps'])))
-        r = run_case(ck, case, idx, sub, ck.thorough)
+    jobs = [(ck.tmp, ck.seed, idx, case, ck.thorough) for idx, case in enumerate(cases)]
+    if ck.thorough and len(jobs) > 8:
+        import multiprocessing
+        with multiprocessing.get_context('fork').Pool(min(14, os.cpu_count() or 2)) as pool:
+            results = pool.map(_work, jobs, chunksize=1)
+    else:
+        results = [_work(j) for j in jobs]
+
+    class R:
+        pass
+    for res in results:
+        if 'infra' in res:
+            raise InfraError('case %d: %s' % (res['idx'], res['infra']))
+        idx, case = res['idx'], cases[res['idx']]
+        r = R()
+        r.__dict__.update(res)
         for k, v in r.stats.items():
             ck.count(k, v)
         ck.count('kind:' + case['kind'])
         canon = dict(kind=case['kind'], quota=case.get('quota'), steps=case['steps'])
-        ck.case(canon, r.nontrivial,
-                sample=dict(kind=case['kind'], steps=len(case['steps']), scenarios=sum(
-                    v for k, v in r.stats.items() if k.startswith('scenario:')),
-                    model_lines=[l[0] for l in r.lines[:14]]) if r.nontrivial else None)
-        ck.evaluations += max(0, sum(v for k, v in r.stats.items() if k.startswith('scenario:')) - 1)
+        for j, (canon_s, nt) in enumerate(r.scen):
+            ck.case(canon_s, nt, sample=dict(kind=case['kind'], scenario=canon_s,
+                                            model_lines=[l[0] for l in r.lines[-12:]]) if nt and j == 3 else None)
+        if not r.scen:
+            ck.case(canon, False)
         if r.violations:
             sig, what, at = r.violations[0]
             steps = r.executed[:at + 1]
@@ -1116,8 +1203,11 @@ def main(argv=None):
                 got = out[start + j]
                 if exp is not None and got != exp:
                     ctx = [l[0] for l in r.lines[max(0, j - 12):j + 1]]
-                    ck.mismatch('model/impl differ (%s, %s) at %r: impl %s | model %s' % (
-                        case['kind'], label, line, exp[:300], got[:300]),
+                    i = next((k for k in range(min(len(exp), len(got))) if exp[k] != got[k]),
+                             min(len(exp), len(got)))
+                    lo = max(0, i - 70)
+                    ck.mismatch('model/impl differ (%s, %s) at %r: impl ...%s | model ...%s' % (
+                        case['kind'], label, line, exp[lo:i + 130], got[lo:i + 130]),
                         dict(kind=case['kind'], quota=case.get('quota'), base=case.get('base'),
                              steps=r.executed, model_lines=ctx))
                     break
